@@ -60,7 +60,13 @@ func runReq(c reqCase) harness.Result {
 				if k == 1 && p.FC == 0 {
 					continue // dispatchers get the full frame only
 				}
-				v, err := p.Fn(append([]byte(nil), in...))
+				buf := append([]byte(nil), in...)
+				v, err := p.Fn(buf)
+				// the buffer the frame was parsed from is the caller's (a server reuses one receive buffer for every read): what was
+				// decoded must not change when the buffer is used again
+				for i := range buf {
+					buf[i] = 0xA5
+				}
 				if err != nil {
 					if !cat.IsNilValue(v) {
 						return harness.Fail("%s: error %v together with non-nil value", p.Name, err)
@@ -78,7 +84,7 @@ func runReq(c reqCase) harness.Result {
 					return harness.Fail("%s returned %s, want %s", p.Name, got, want)
 				}
 				if !reflect.DeepEqual(normalize(v), normalize(q)) {
-					return harness.Fail("%s decoded\n  %+v\noriginal\n  %+v\n(frame %x)", p.Name, v, q, in)
+					return harness.Fail("%s decoded (as read after the input buffer was overwritten)\n  %+v\noriginal\n  %+v\n(frame %x)", p.Name, v, q, in)
 				}
 				if re := v.(packet.Request).Bytes(); !bytes.Equal(re, frame) {
 					return harness.Fail("%s: decoded request re-encodes to %x, original %x", p.Name, re, frame)
